@@ -4,6 +4,7 @@ import ExprModel.Proofs.RefineExample
 import ExprModel.Proofs.RefineFloats
 import ExprModel.Api.Pipeline
 import ExprModel.Proofs.RefineBenignAll
+import ExprModel.Props.C02
 /-
 C01 — Compiled evaluation conforms to the language definition.
 
@@ -298,5 +299,179 @@ theorem eval_source_stages (F : Api.Front) (c : Cfg) (fuel : Nat) (src : String)
     (∀ ts n e, Lex.lex F.cc F.tables src = .ok ts → Parser.parse F.pcfg ts = .ok n → compileProgram {} n = .error e →
       Api.evalSource F c fuel src = .compileError e) := by
   refine ⟨fun e h => ?_, fun ts e h1 h2 => ?_, fun ts n e h1 h2 h3 => ?_⟩ <;> simp only [Api.evalSource, *]
+
+/-! ### `expr.Compile` + `expr.Run` with a typed environment: every model stage in a row
+
+`Api.compileSource` = `Config.Check`, lexer, parser, checker, `PatchOperators`, checker again, optimizer (when
+on), compiler with `MapEnv` and the result directive; `Api.runSource` adds `run`.  Compared stage by stage
+and end to end with the real `expr.Compile(src, Env(env), Optimize(..), As…)` + `expr.Run` on every run
+(harness/c01.go `CompileSourceCorrespondence`; operators: the empty table, where `patchOperators` is the
+identity by definition). -/
+
+/-- what a successful `middle` went through -/
+theorem middle_ok_inv {T : Api.TypedCfg} {w : World} {n : Node} {cp : Compiled} {checked final : Node}
+    (h : Api.middle T w n = .ok cp checked final) :
+    ∃ n1 t1 n2 t3, check T.check n = .ok n1 t1 ∧ patchOperators T.walkTbl T.opTable T.tyOf n1 = some n2 ∧
+      check T.check n2 = .ok checked t3 ∧
+      (if T.optimize then Opt.optimize T.optFlags T.constFns w checked else .ok checked) = .ok final ∧
+      compileProgram T.compCfg final = .ok cp := by
+  unfold Api.middle at h
+  split at h
+  · cases h
+  · cases h
+  · rename_i n1 t1 h1
+    split at h
+    · cases h
+    · rename_i n2 h2
+      split at h
+      · cases h
+      · cases h
+      · rename_i n3 t3 h3
+        dsimp only at h
+        split at h
+        · cases h
+        · rename_i n4 h4
+          split at h
+          · cases h
+          · rename_i cp' h5
+            cases h
+            exact ⟨n1, t1, n2, t3, h1, h2, h3, h4, h5⟩
+
+/-- what a successful `compileSource` went through -/
+theorem compileSource_ok_inv {F : Api.Front} {T : Api.TypedCfg} {w : World} {src : String} {cp : Compiled}
+    {checked final : Node} (h : Api.compileSource F T w src = .ok cp checked final) :
+    configCheck T.fnTags T.operators = .ok ∧
+    ∃ ts n n1 t1 n2 t3, Lex.lex F.cc F.tables src = .ok ts ∧ Parser.parse F.pcfg ts = .ok n ∧
+      check T.check n = .ok n1 t1 ∧ patchOperators T.walkTbl T.opTable T.tyOf n1 = some n2 ∧
+      check T.check n2 = .ok checked t3 ∧
+      (if T.optimize then Opt.optimize T.optFlags T.constFns w checked else .ok checked) = .ok final ∧
+      compileProgram T.compCfg final = .ok cp := by
+  unfold Api.compileSource at h
+  split at h
+  · rename_i hcc
+    refine ⟨hcc, ?_⟩
+    split at h
+    · cases h
+    · rename_i ts hl
+      split at h
+      · cases h
+      · rename_i n hp
+        unfold Api.middle at h
+        split at h
+        · cases h
+        · cases h
+        · rename_i n1 t1 h1
+          split at h
+          · cases h
+          · rename_i n2 h2
+            split at h
+            · cases h
+            · cases h
+            · rename_i n3 t3 h3
+              dsimp only at h
+              split at h
+              · cases h
+              · rename_i n4 h4
+                split at h
+                · cases h
+                · rename_i cp' h5
+                  cases h
+                  exact ⟨ts, n, n1, t1, n2, t3, hl, hp, h1, h2, h3, h4, h5⟩
+  · cases h
+
+/-- **The typed pipeline conforms.**  If every stage of `expr.Compile` succeeds, the run of the compiled
+    program agrees (value or error class, memory / created / call log, empty stack and scopes on success) with
+    the language definition on `final`, the checked-and-optimised tree handed to the compiler, under the result
+    directive.  Remaining hypotheses, all about `final` / the compiled program and all but `SmallColl`
+    computable: `floatsOK`, `FitsU16`, `Good`; `EnvOK`: with `MapEnv` the run-time environment is a map. -/
+theorem middle_conforms (T : Api.TypedCfg) (c : Cfg) (n : Node) (cp : Compiled) (checked final : Node)
+    (h : Api.middle T c.world n = .ok cp checked final)
+    (hfl : floatsOK final = true) (hfit : FitsU16 cp.code) (henv : EnvOK c T.compCfg)
+    (hg : Good (SmallColl c) final) :
+    ∃ N, ∀ fuel, N ≤ fuel →
+      RunAgrees (run c (Api.progOfCompiled cp) fuel) (Spec.run (specOf c) (Api.castOf T.check.expect) final) := by
+  obtain ⟨_, _, _, _, _, _, _, _, hcomp⟩ := middle_ok_inv h
+  exact run_conforms_checked T.compCfg final cp c hcomp hfl hfit henv hg
+
+/-- the hypotheses are satisfiable: `struct { I int; B bool }`, `AsBool`, optimizer on, the tree of
+    `I in 1..3 and not B` — checked, rewritten by `in_range` to `I >= 1 and I <= 3 and not B`, compiled -/
+example (c : Cfg) (hw : c.world = w0) : ∃ N, ∀ fuel, N ≤ fuel →
+    RunAgrees (run c (Api.progOfCompiled (exTyped w0).1) fuel) (Spec.run (specOf c) none exFinal) := by
+  have h := middle_conforms exT c exParsed _ _ _ (hw ▸ exTyped_ok) exTyped_floats exTyped_fits (fun h => by cases h)
+    (exTyped_final ▸ exFinal_good _)
+  rw [exTyped_final] at h
+  exact h
+
+theorem compile_source_conforms (F : Api.Front) (T : Api.TypedCfg) (c : Cfg) (src : String) (cp : Compiled)
+    (checked final : Node) (h : Api.compileSource F T c.world src = .ok cp checked final)
+    (hfl : floatsOK final = true) (hfit : FitsU16 cp.code) (henv : EnvOK c T.compCfg)
+    (hg : Good (SmallColl c) final) :
+    ∃ N, ∀ fuel, N ≤ fuel → ∃ res fin, Api.runSource F T c fuel src = .ran cp res fin ∧
+      RunAgrees (res, fin) (Spec.run (specOf c) (Api.castOf T.check.expect) final) := by
+  obtain ⟨_, ts, n, n1, t1, n2, t3, _, _, _, _, _, _, hcomp⟩ := compileSource_ok_inv h
+  obtain ⟨N, hN⟩ := run_conforms_checked T.compCfg final cp c hcomp hfl hfit henv hg
+  refine ⟨N, fun fuel hf => ⟨_, _, ?_, hN fuel hf⟩⟩
+  simp only [Api.runSource, h]
+  rfl
+
+/-- … and, through C02, with the language definition on `checked`, the tree the checker accepted (annotated,
+    not yet optimised) — for the optimizer as it is now (`Flags.asIs`), under C02's hypotheses: `g` selects
+    rewrite sites at which the guards `GuardNow` hold, the optimizer rewrote nowhere else (`hrun`), constant
+    regexps are string literals (`reOK`); nothing is claimed when the run of `checked` exceeds the memory budget
+    (the optimised tree allocates less).  What relates `checked` to the *parsed* tree is C03 / C15: the kinds
+    the checker annotates are the dynamic kinds (then the kind-directed `==` and integer literals mean the same). -/
+theorem compile_source_conforms_checked (F : Api.Front) (T : Api.TypedCfg) (c : Cfg) (src : String) (cp : Compiled)
+    (checked final : Node) (h : Api.compileSource F T c.world src = .ok cp checked final)
+    (hfl : floatsOK final = true) (hfit : FitsU16 cp.code) (henv : EnvOK c T.compCfg)
+    (hg : Good (SmallColl c) final)
+    (hflags : T.optFlags = Opt.Flags.asIs) (g : Opt.Guard)
+    (hguard : ∀ p N, g p N = true → C02.GuardNow (specOf c) T.constFns p N) (hre : OptProofs.reOK checked = true)
+    (hrun : Opt.optimizeWith g Opt.Flags.asIs T.constFns c.world checked =
+      Opt.optimize Opt.Flags.asIs T.constFns c.world checked) :
+    ∃ N, ∀ fuel, N ≤ fuel → ∃ res fin, Api.runSource F T c fuel src = .ran cp res fin ∧
+      ((Spec.run (specOf c) (Api.castOf T.check.expect) checked).1 = .error .budget ∨
+       res = (Spec.run (specOf c) (Api.castOf T.check.expect) checked).1) := by
+  obtain ⟨N, hN⟩ := compile_source_conforms F T c src cp checked final h hfl hfit henv hg
+  obtain ⟨_, ts, n, n1, t1, n2, t3, _, _, _, _, _, hopt, _⟩ := compileSource_ok_inv h
+  refine ⟨N, fun fuel hf => ?_⟩
+  obtain ⟨res, fin, hr, hagree⟩ := hN fuel hf
+  refine ⟨res, fin, hr, ?_⟩
+  have hres : res = (Spec.run (specOf c) (Api.castOf T.check.expect) final).1 := hagree.1
+  by_cases ho : T.optimize = true
+  · rw [if_pos ho, hflags] at hopt
+    rcases C02.optimize_transparent_asIs_partial (c := specOf c) T.constFns g hguard checked final hre hrun hopt
+      (Api.castOf T.check.expect) with hb | he
+    · exact .inl hb
+    · exact .inr (hres.trans he)
+  · rw [if_neg ho] at hopt
+    cases hopt
+    exact .inr hres
+
+/-- the stages fail in order, each reported as such -/
+theorem compile_source_stages (F : Api.Front) (T : Api.TypedCfg) (w : World) (src : String) :
+    (∀ r, configCheck T.fnTags T.operators = r → r ≠ .ok → Api.compileSource F T w src = .configError r) ∧
+    (configCheck T.fnTags T.operators = .ok →
+      (∀ e, Lex.lex F.cc F.tables src = .error e → Api.compileSource F T w src = .lexError e) ∧
+      (∀ ts e, Lex.lex F.cc F.tables src = .ok ts → Parser.parse F.pcfg ts = .error e →
+        Api.compileSource F T w src = .parseError e) ∧
+      (∀ ts n, Lex.lex F.cc F.tables src = .ok ts → Parser.parse F.pcfg ts = .ok n →
+        Api.compileSource F T w src = Api.middle T w n)) ∧
+    (∀ n loc cl n', check T.check n = .error loc cl n' → Api.middle T w n = .checkError loc cl) ∧
+    (∀ n n1 t1 n2 loc cl n', check T.check n = .ok n1 t1 → patchOperators T.walkTbl T.opTable T.tyOf n1 = some n2 →
+      check T.check n2 = .error loc cl n' → Api.middle T w n = .checkError loc cl) ∧
+    (∀ n n1 t1 n2 n3 t3 loc, check T.check n = .ok n1 t1 → patchOperators T.walkTbl T.opTable T.tyOf n1 = some n2 →
+      check T.check n2 = .ok n3 t3 → T.optimize = true → Opt.optimize T.optFlags T.constFns w n3 = .error loc →
+      Api.middle T w n = .optimizeError loc) := by
+  refine ⟨fun r hr hne => ?_, fun hc => ⟨fun e h => ?_, fun ts e h1 h2 => ?_, fun ts n h1 h2 => ?_⟩,
+    fun n loc cl n' h => ?_, fun n n1 t1 n2 loc cl n' h1 h2 h3 => ?_, fun n n1 t1 n2 n3 t3 loc h1 h2 h3 ho h4 => ?_⟩
+  · unfold Api.compileSource
+    rw [hr]
+    cases r <;> first | exact absurd rfl hne | rfl
+  · simp only [Api.compileSource, hc, h]
+  · simp only [Api.compileSource, hc, h1, h2]
+  · simp only [Api.compileSource, hc, h1, h2]
+  · simp only [Api.middle, h]
+  · simp only [Api.middle, h1, h2, h3]
+  · simp only [Api.middle, h1, h2, h3, ho, if_true, h4]
 
 end ExprModel.C01
